@@ -95,6 +95,14 @@ func (e *ExtensionObject) Encode() ([]byte, error) {
 		return buf.Bytes(), buf.Error()
 	}
 
+	// an object whose type is not registered, or which was sent without a
+	// body, is decoded with a nil value: there is nothing to encode but a
+	// null body
+	if e.Value == nil {
+		buf.WriteUint32(null)
+		return buf.Bytes(), buf.Error()
+	}
+
 	body := NewBuffer(nil)
 	body.WriteStruct(e.Value)
 	if body.Error() != nil {
